@@ -85,4 +85,13 @@ theorem local_delete (S : List String) (t : Table K V) (when : Int) (k : K) (ht 
     (∀ k', k' ≠ k → lookup k' (deleteRow t when k) = lookup k' t) :=
   cells_delete S t when k (ht.2 k)
 
+/-- the statement functions as the model follows them, read from the source on this run: the
+    refusal condition of INSERT, the UPDATE delta keeping the row's insert time, the merged row
+    stored under the later of the two times, and the glue that passes only assigned columns -/
+theorem statement_facts :
+    S3db.Gen.facts.insertRefusedCond = "ok && (!old.Deleted || ot.Add(old.DeleteUpdateOffset.AsDuration()).After(t))" ∧
+    S3db.Gen.facts.statementsMergeAndStoreAsExpected = true ∧
+    S3db.Gen.facts.columnHonoursNoChange = true ∧ S3db.Gen.facts.valuesSkipNoChange = true := by
+  decide
+
 end S3db.Props.C02
